@@ -37,7 +37,7 @@ fn build(cfg: &[u16]) -> Built {
         (K::Topic, 3),
         (K::Privmsg, 4),
         (K::NewUser, 4),
-        (K::CapPost, 4),
+        (K::CapPost, 10),
     ]);
     prof.oper_names.push(("op0".into(), "operpw0".into()));
     let mut setup = vec![];
@@ -118,7 +118,12 @@ fn advance_answering(eng: &mut Engine, ms_total: u64, silent: Option<usize>) {
 fn run_prefix(b: &Built, case: &ScCase, cut: usize, st: &mut Stats) -> Option<Engine> {
     let seed = case.cfg.get(0).copied().unwrap_or(0) as u64;
     let mut eng = Engine::new(&b.cfg, seed);
-    let ok = |eng: &Engine, o: &StepOut| o.discs.is_empty() || { let _ = eng; false };
+    // a surplus reply on the acting connection alone does not mean that the model lost the
+    // state: it is tolerated (counted) so that the end-of-session clean-up is still judged
+    let ok = |eng: &Engine, o: &StepOut| {
+        let _ = eng;
+        o.discs.is_empty() || o.discs.iter().all(|d| matches!(d, Disc::Extra { conn, line } if Some(*conn) == o.actor && line[0] == "S"))
+    };
     for i in 0..b.prelude_users {
         let (_, outs) = eng.register(&b.prof.nicks[i], &format!("u{}", i));
         for o in outs {
